@@ -57,6 +57,15 @@ CHECKS = {
  "C17": ("return-value oracle over generated result lists (ids and error identity), incl. run-once and redefined callee",
          "Functions returning 0-4 values with error results in every position, nil or not, concrete error types in final position, optionally memoized or wrapped by Redefine: Len/Out/Err must partition exactly what the body returned; resolution failures must give Len()==0 and an error.",
          "Identity by provenance id / pointer.", "5/C17"),
+ "C18": ("reference-model monitor: Dijkstra/EdgeToPath vs. Floyd-Warshall on generated graphs; live-graph hook on the resolver's searches; exhaustive small-graph sub-space in the thorough tier",
+         "Every generated digraph (<= 10 vertices, zero-weight cycles, self-loops, re-weighted edges, four vertex kinds) is searched from every source several times; distances, predecessor paths and unreachable vertices are compared with an all-pairs reference. The resolver's own non-negative searches are checked through the reach.path hook. Thorough enumerates all 262 404 digraphs on <= 3 vertices with weights {absent,0,1,2}.",
+         "Exploration overall; the <= 3-vertex sub-space is exhaustive (reported under observed.exhaustive_le3_vertices_complete). Graphs reach the package through the verif-tag type alias.", "5/C18"),
+ "C19": ("executable adjacency model checked after every operation of generated mutation histories; structural invariant hook (VerifSnapshot); live-graph mirror/copy checks",
+         "Histories of up to 60 colliding operations (Add, AddOverwrite, AddEdge(Weighted), RemoveEdge, Remove, Copy, Reverse, Reverse().Reverse(), starting from the zero-value graph) run against a plain map model per graph; after every operation every live handle is compared (vertex set, successors, predecessors, internal transpose consistency, weights, lookups) and at the end searches must use the last weights.",
+         "Absent-vertex arguments are outside the property and not generated; object identity of re-added vertices not checked.", "5/C19"),
+ "C20": ("transitive-closure reference model for DFS / KahnSort / StronglyConnected / TopoShortestPath on generated graphs; live pruning-DFS hook; exhaustive small-graph sub-space in the thorough tier",
+         "DFS with fixed descend/decline decisions, topological sorting (incl. the required panic on cycles and self-loops), component partition and DAG shortest paths are compared with the closure / all-pairs reference on random graphs and, in the thorough tier, on every digraph with <= 3 vertices; the resolver's own pruning traversal is checked on live graphs.",
+         "Vertices whose callback declines may be reported repeatedly (never marked visited); sets are compared for those.", "5/C20"),
 }
 
 NOT_YET = {}
